@@ -70,9 +70,6 @@ func (p *process) Invoke(msgs []Envelope) {
 		// If we recovered, we buffer up all the messages that we could not process
 		// so we can retry them on the next restart.
 		if v := recover(); v != nil {
-			p.context.message = Stopped{}
-			applyMiddleware(p.context.receiver.Receive, p.Opts.Middleware...)(p.context)
-
 			p.mbuffer = make([]Envelope, nmsg-nproc)
 			for i := 0; i < nmsg-nproc; i++ {
 				p.mbuffer[i] = msgs[i+nproc]
@@ -121,8 +118,6 @@ func (p *process) Start() {
 	p.context.receiver = recv
 	defer func() {
 		if v := recover(); v != nil {
-			p.context.message = Stopped{}
-			applyMiddleware(p.context.receiver.Receive, p.Opts.Middleware...)(p.context)
 			p.tryRestart(v)
 		}
 	}()
@@ -150,13 +145,15 @@ func (p *process) tryRestart(v any) {
 	// node never comes back up again?
 	if msg, ok := v.(*InternalError); ok {
 		slog.Error(msg.From, "err", msg.Err)
+		p.stopReceiver()
 		time.Sleep(p.Opts.RestartDelay)
 		p.Start()
 		return
 	}
 	stackTrace := cleanTrace(debug.Stack())
 	// If we reach the max restarts, we shutdown the inbox and clean
-	// everything up.
+	// everything up. cleanup tells the receiver Stopped (once, after its children
+	// are down), so we must not do that here as well.
 	if p.restarts == p.MaxRestarts {
 		p.context.engine.BroadcastEvent(ActorMaxRestartsExceededEvent{
 			PID:       p.pid,
@@ -167,6 +164,7 @@ func (p *process) tryRestart(v any) {
 	}
 
 	p.restarts++
+	p.stopReceiver()
 	// Restart the process after its restartDelay
 	p.context.engine.BroadcastEvent(ActorRestartedEvent{
 		PID:        p.pid,
@@ -177,6 +175,13 @@ func (p *process) tryRestart(v any) {
 	})
 	time.Sleep(p.Opts.RestartDelay)
 	p.Start()
+}
+
+// stopReceiver tells the current (failed) receiver that it is stopped, before a
+// fresh one is produced by the restart.
+func (p *process) stopReceiver() {
+	p.context.message = Stopped{}
+	applyMiddleware(p.context.receiver.Receive, p.Opts.Middleware...)(p.context)
 }
 
 func (p *process) cleanup(cancel context.CancelFunc) {
